@@ -235,7 +235,7 @@ Section InferDefined.
       unfold struct_step in Es. cbn [bind] in Es.
       destruct (jf_override f).
       - (* an embedded struct replaced through TypeSchemas: only string entries exist, which are refused *)
-        destruct (lookup (type_name (jf_decl f)) (o_schemas o)) as [[ov|]|] eqn:El; try discriminate.
+        destruct (lookup (type_name (jf_type f)) (o_schemas o)) as [[ov|]|] eqn:El; try discriminate.
         apply Hstd in El. injection El as ->. cbn in Es. discriminate.
       - destruct (rec (jf_decl f)) as [[fs|]| | |] eqn:Er; cbn [bind] in Es; try discriminate.
         + assert (Hfs : exists c, defined c /\ ss_props st1 = map_set (jf_name f) c (ss_props st)).
